@@ -64,10 +64,8 @@ def main():
                                          'tail': o[-300:]}
                 with open(os.path.join(src, 'pytest.json'), 'w') as f:
                     json.dump(out['pytest_patched'], f)
-            # run the check against the patched tree, keep the evidence file of
-            # the unchanged tree
-            evp = os.path.join(ROOT, 'evidence', f'{prop}.json')
-            keep = open(evp).read() if os.path.exists(evp) else None
+            # run the check against the patched tree (a run with VERIF_REPO set
+            # writes evidence/<ID>.partial.json, never the evidence file)
             seeds = ['0']
             if '--seeds' in sys.argv:
                 seeds = sys.argv[sys.argv.index('--seeds') + 1].split(',')
@@ -91,8 +89,6 @@ def main():
                             'n_violation_lines': first['n_violation_lines'],
                             'lines': first['lines'],
                             'seeds': {sd: v['rc'] for sd, v in per_seed.items()}}
-            if keep is not None:
-                open(evp, 'w').write(keep)
         pj = os.path.join(src, 'pytest.json')
         if 'pytest_patched' not in out and os.path.exists(pj):
             out['pytest_patched'] = json.load(open(pj))
